@@ -706,6 +706,8 @@ SCENES["S4"] = [
 ]
 SCENES["S4r"] = SCENES["S4"] + [["reopen"]]
 SCENES["S5"] = SCENES["S2"] + [["stats", 2], ["stats", 3], ["stats", 6]]
+# a cross-workspace copy that was removed again and garbage-collected: its identifiers are free
+SCENES["S6"] = SCENES["S1"] + [["copy", 1, "root2", True], ["rm_ws", 4], ["gc"]]
 SCENES["S2r"] = SCENES["S2"] + [["reopen"]]
 SCENES["S1r"] = SCENES["S1"] + [["reopen"]]
 
